@@ -422,9 +422,9 @@ class ExprMixin:
                 -len(base.items) <= idx.const < len(base.items):
             it = base.items[idx.const]
             alias = frozenset(loc_ext(l, "[]") for l in base.alias) | it.alias
-            return replace(it, alias=alias, deps=it.deps | base.deps | idx.deps)
+            return replace(it, alias=alias, deps=it.deps | base.deps | all_deps(idx))
         e = elem_of(base)
-        return replace(e, deps=e.deps | idx.deps, const=NOCONST)
+        return replace(e, deps=e.deps | all_deps(idx), const=NOCONST)
 
     # ------------------------------------------------------------ attributes
     def x_Attribute(self, n, st, frame):
